@@ -101,6 +101,9 @@ pub fn judge_c13(u: &UriCase, p: &Probe) -> Judge {
     if u.host.starts_with('[') {
         p.label("IPv6 literal");
     }
+    if u.path.len() > 1000 {
+        p.label("path longer than 1000 octets");
+    }
     let r = catch(|| ipp::util::canonicalize_uri(&uri)).map_err(|e| Fail::new(format!("C13/{}", panic_sig(&e)), format!("canonicalize_uri({text:?}) panicked: {e}")))?;
     let rs = r.to_string();
     check_canonical(u, &rs)?;
@@ -116,6 +119,17 @@ pub fn judge_c13(u: &UriCase, p: &Probe) -> Judge {
         let pu = printer_uri_of(&req).ok_or_else(|| Fail::new("C13/no-printer-uri", format!("{name}: request for {text:?} has no printer-uri (uri) attribute")))?;
         check_canonical(u, &pu).map_err(|f| Fail::new(f.sig, format!("{name}: {}", f.msg)))?;
         let bytes = req.to_bytes();
+        // ... and as it is written on the wire (read back by the reference decoder)
+        let wire_pu = vcore::refcodec::ref_decode(&bytes).ok().and_then(|d| {
+            d.msg.groups.iter().find(|g| g.tag == 1).and_then(|g| g.attrs.iter().find(|a| a.name == b"printer-uri").and_then(|a| match a.values.first() {
+                Some(vcore::refcodec::WVal::Scalar { tag: 0x45, body }) if a.values.len() == 1 => Some(String::from_utf8_lossy(body).to_string()),
+                _ => None,
+            }))
+        });
+        match wire_pu {
+            Some(w) => check_canonical(u, &w).map_err(|f| Fail::new(format!("{}/on-the-wire", f.sig), format!("{name}: encoded request: {}", f.msg)))?,
+            None => return Err(Fail::new("C13/no-printer-uri-on-the-wire", format!("{name}: the encoded request for {text:?} carries no single uri-valued printer-uri"))),
+        }
         for m in &u.markers {
             if contains(&bytes, m.as_bytes()) {
                 return Err(Fail::new("C13/marker-leak-in-request", format!("{name}: the encoded request for {text:?} contains the secret token {m:?}")));
